@@ -1095,7 +1095,7 @@ macro_rules! impl_shifts {({$($rhs:ty),+}) => {
     $(
         impl<I: Integer, const N: usize> ShlAssign<$rhs> for Bvf<I, N> {
             fn shl_assign(&mut self, rhs: $rhs) {
-                let shift = usize::try_from(rhs).map_or(0, |s| s);
+                let shift = usize::try_from(rhs).unwrap_or(usize::MAX);
                 if shift == 0 {
                     return;
                 }
@@ -1156,7 +1156,7 @@ macro_rules! impl_shifts {({$($rhs:ty),+}) => {
 
         impl<I: Integer, const N: usize> ShrAssign<$rhs> for Bvf<I, N> {
             fn shr_assign(&mut self, rhs: $rhs) {
-                let shift = usize::try_from(rhs).map_or(0, |s| s);
+                let shift = usize::try_from(rhs).unwrap_or(usize::MAX);
                 if shift == 0 {
                     return;
                 }
